@@ -24,7 +24,8 @@ def runPar (args : List String) : Res :=
     let stepAll := fun (acc : State × Nat × Nat × Bool) (it : String) =>
       let (s, next, mx, ok) := acc
       if !ok then acc else
-      if it == "d" then
+      if it == "c" then acc       -- a local close in progress does not change how arriving messages are dispatched
+      else if it == "d" then
         let s1 := { s with inbox := s.inbox ++ [next] }
         let (s2, _) := settle s1 (s1.inbox.length + 1)
         (s2, next + 1, Nat.max mx s2.running.length, true)
